@@ -150,6 +150,15 @@ impl<T> SocksRequest<T> {
         socket: &mut IO,
         auth: A,
     ) -> Result<(), Error> {
+        let cid = auth.auth_v4(&self.auth).await?;
+        if let TargetAddress::DomainPort(domain, _) = &self.target {
+            if domain.as_bytes().contains(&0) {
+                bail!("domain name can not be sent in socks4a: {:?}", domain);
+            }
+        }
+        if cid.as_bytes().contains(&0) {
+            bail!("user id can not be sent in socks4: {:?}", cid);
+        }
         socket.write_u8(self.version).await.context("version")?;
         socket.write_u8(self.cmd).await.context("cmd")?;
         let (dst, dport, target) = match &self.target {
@@ -167,7 +176,6 @@ impl<T> SocksRequest<T> {
         };
         socket.write_u16(dport).await.context("dport")?;
         socket.write(&dst).await.context("dport")?;
-        let cid = auth.auth_v4(&self.auth).await?;
         socket.write(cid.as_bytes()).await.context("cid")?;
         socket.write_u8(0).await.context("cid")?;
         if let Some(target) = target {
